@@ -3155,8 +3155,14 @@ class UTPM(Ring, RawAlgorithmsMixIn):
 
         """
 
-        in_X = numpy.array(in_X)
-        Rb,Cb = numpy.shape(in_X)
+        # collect the blocks in an object array without letting numpy look into
+        # the UTPM instances (they are sequences themselves)
+        Rb,Cb = len(in_X), len(in_X[0])
+        tmp = numpy.empty((Rb,Cb), dtype=object)
+        for r in range(Rb):
+            for c in range(Cb):
+                tmp[r,c] = in_X[r][c]
+        in_X = tmp
 
         # find the degree D and number of directions P
         D = 0; 	P = 0;
